@@ -268,10 +268,13 @@ def run(ctx):
     ex = absint.Explorer(prog, effects=eff, loop_bound=12)
     ncase = 0
     failures = []
-    for n in range(1, 5):
-        for arr in itertools.combinations_with_replacement(range(4), n):
+    # thorough tier: arrays of up to 6 values over {0..5}
+    maxn, vals = (6, 6) if ctx.tier == "thorough" else (4, 4)
+    ex.loop_bound = maxn * 2 + 4
+    for n in range(1, maxn + 1):
+        for arr in itertools.combinations_with_replacement(range(vals), n):
             for old in sorted(set(arr)):
-                for new in range(4):
+                for new in range(vals):
                     if new == old:
                         continue
                     ncase += 1
@@ -291,7 +294,7 @@ def run(ctx):
                             bad = "writes outside the array at %s" % extra
                     if bad:
                         failures.append("replace %d by %d in %s: %s, expected %s" % (old, new, list(arr), bad, want))
-    ctx.check(not failures, "R20.4", "sort_replace:all-arrays-up-to-4", sr.loc(),
+    ctx.check(not failures, "R20.4", "sort_replace:all-arrays-up-to-%d" % maxn, sr.loc(),
               "%d of %d cases wrong, e.g. %s" % (len(failures), ncase, failures[:2]))
     ctx.note("R20.4 evaluated %d (array, old, new) cases" % ncase)
     for k in range(0, ncase, max(1, ncase // 12)):
